@@ -11,7 +11,8 @@ for order 2).  This stream therefore covers the size axis: 1-D grids of 64..700 
 Tie: the read-off linear map B must satisfy the model's defining relation (P + 2^-26 I) (B / c) = D^T with the exact
 integer P and D of the Lean model (dims <= 96; 1e-9).
 Oracle (implementation only): for smooth directions w (low cosine modes, a random twice-integrated vector) the
-bilinear form h(w, x) = w^T H x of the object's own log-density is evaluated by exact second differences and
+bilinear form h(w, x) = w^T H x of the object's own log-density is evaluated by exact second differences (from the
+object's own gradient when the normalising constant of its logpdf is not finite) and
     || B^T H w ||^2 = w^T H w        (i.e.  H (B B^T) H = H  along w)
 is demanded with relative tolerance max(1e-7, 4 sqrt(eps) prec ||w||^2 / w^T H w)  -- twice the proved perturbation
 of the coded regularisation sqrt(eps).
@@ -71,7 +72,7 @@ def run_gmrf_large(ctx, cuqi, thorough, H):
             ctx.fail(key + ":global-state", desc, "global numpy random state untouched when rng is given", "changed")
     outs = ctx.lean.drive(lines) if lines else []
     pos = 0
-    worst, skipped = {}, {}
+    worst, skipped, grad_used = {}, {}, {}
     for m in metas:
         key, desc, G, dim, rows = m["key"], m["desc"], m["G"], m["dim"], m["rows"]
         ctx.case("gmrf-large", desc)
@@ -107,13 +108,28 @@ def run_gmrf_large(ctx, cuqi, thorough, H):
         with quiet():
             f0 = H.logpdf1(G, mu)
             fb = np.array([H.logpdf1(G, mu + B[:, j]) for j in range(rows)])
+        use_grad = not (math.isfinite(f0) and np.all(np.isfinite(fb)))
+        if use_grad:
+            # the normalising constant of the object's logpdf is not finite (log of a non-positive eigenvalue estimate:
+            # a C04 matter); the shape of the same density is then read from the object's own gradient
+            grad_used[key] = grad_used.get(key, 0) + 1
         for (nm, w) in smooth_directions(rs, m["pd"], m["n"], dim):
-            with quiet():
-                fw = H.logpdf1(G, mu + w)
-                fwm = H.logpdf1(G, mu - w)
-                fwb = np.array([H.logpdf1(G, mu + w + B[:, j]) for j in range(rows)])
-            hww = -(fw + fwm - 2.0 * f0)                      # w^T H w
-            hwb = -(fwb - fw - fb + f0)                       # (B^T H w)_j
+            if use_grad:
+                try:
+                    with quiet():
+                        Hw = -(np.asarray(G.gradient(mu + w), dtype=float) - np.asarray(G.gradient(mu), dtype=float))
+                except Exception:
+                    skipped[key] = skipped.get(key, 0) + 1
+                    continue
+                hww = float(w @ Hw)
+                hwb = B.T @ Hw
+            else:
+                with quiet():
+                    fw = H.logpdf1(G, mu + w)
+                    fwm = H.logpdf1(G, mu - w)
+                    fwb = np.array([H.logpdf1(G, mu + w + B[:, j]) for j in range(rows)])
+                hww = -(fw + fwm - 2.0 * f0)                      # w^T H w
+                hwb = -(fwb - fw - fb + f0)                       # (B^T H w)_j
             if not (hww > 0 and np.all(np.isfinite(hwb))):
                 skipped[key] = skipped.get(key, 0) + 1
                 continue
@@ -130,4 +146,4 @@ def run_gmrf_large(ctx, cuqi, thorough, H):
                          "variance of the draws along a smooth direction is not the one implied by the log-density of the same object (covariance is not the pseudo-inverse of the precision)")
                 break
     ctx.extra_cov["gmrf_large"] = {"configs": hist, "worst_deviation_over_tolerance": {k: round(v, 4) for k, v in worst.items()},
-                                   "directions_skipped_nonfinite": skipped}
+                                   "directions_skipped_nonfinite": skipped, "density_shape_from_gradient": grad_used}
